@@ -557,3 +557,17 @@ Lemma same_prefix_different_attributes_two_routes :
   exists a1 a2, sess_of (brun 0 (one_route_hist 100 200)) 1 = Some [a1; a2] /\
                 ad_pfx a1 = ad_pfx a2 /\ ad_lp a1 <> ad_lp a2.
 Proof. eexists. eexists. vm_compute. split; [reflexivity|]. split; [reflexivity|discriminate]. Qed.
+
+(* what is reported (ServiceBGPStatus) = the peers with a live session offered one of the service's prefixes *)
+Lemma reported_status_exact me evs svc :
+  let offered p := exists q l, In q (bs_peers (brun me evs)) /\ pc_name (ps_cfg q) = p /\ ps_sess q = Some l /\
+                               exists ad, In ad l /\ svc_prefix me evs svc (ad_pfx ad) in
+  match published_status (bs_active (brun me evs) svc) with
+  | None => forall p, ~ offered p
+  | Some l => forall p, In p l <-> offered p
+  end.
+Proof.
+  cbv zeta. unfold published_status. destruct (bs_active (brun me evs) svc) as [|x r] eqn:E.
+  - intros p H. apply (peers_for_service_exact me evs svc p) in H. rewrite E in H. exact H.
+  - intros p. rewrite <- E. apply peers_for_service_exact.
+Qed.
